@@ -372,6 +372,14 @@ def Refines (w : World) (i : Nat) (v : View) (s : SpecOut) (r : World × Out) : 
   (∀ a, a < v.start ∨ v.stop ≤ a → r.1.mem a = w.mem a) ∧
   r.1.freed = w.freed ∧ r.1.x = w.x ∧ r.1.y = w.y
 
+/-- the same history run on the file: the (return value, warning) of every call -/
+def specRun (v : View) (data : List Nat) : List Op → List (Ret × Bool)
+  | [] => []
+  | op :: ops =>
+    match specIO v ⟨data, v.offset⟩ op with
+    | some s => (s.ret, s.warn) :: specRun s.post s.data ops
+    | none => []
+
 /-! ## The oracle: the specification evaluated on one observed call of the implementation -/
 
 structure Obs where
@@ -579,7 +587,15 @@ def handle (op : String) (j : Json) : R Json := do
         newView := ← opt s "nv" viewOfJson, base := base, before := before, after := after }
       res := res ++ [jList ((checkObs o).map Json.str)]
       before := after
-    pure (Json.mkObj [("fails", jList res)])
+    -- a view obtained from an allocation of `size` bytes at `abase` must span exactly that allocation
+    let rootFails ← (do
+      match ← opt j "alloc" (fun a => asPair a asInt asInt) with
+      | none => pure []
+      | some (abase, size) =>
+        let r ← viewOfJson (← field j "root")
+        let spec := (allocAsFilelike x y abase size (fun _ => 0)).views
+        pure (if spec = [r] then [] else ["confinement"]) : R (List String))
+    pure (Json.mkObj [("fails", jList res), ("root", jList (rootFails.map Json.str))])
   | "orig" =>
     -- the counts the code computed before the fix (for reporting only)
     let v ← viewOfJson (← field j "view")
